@@ -274,3 +274,51 @@ Proof.
   - split; [intros [? ?]; discriminate|intros (? & ? & _); discriminate].
   - split; [intros [? ?]; discriminate|intros (? & ? & _); discriminate].
 Qed.
+
+(** * wait: what "the selected rows equal the expected rows" compares *)
+
+(** the value an expected row stands for in a column: what it says, or - when
+    the operation names no columns - the default of the column *)
+Definition expected_value (T : table) (all : bool) (expected : row) (c : sym) : option (option value) :=
+  match expected !! c with
+  | Some x => Some (Some x)
+  | None => if all then match find_col T c with
+                         | Some C => Some (Some (default_value (c_ty C)))
+                         | None => None
+                         end
+            else None
+  end.
+
+(** a selected row matches an expected row exactly when it holds, in every
+    compared column, the value the expected row stands for there; a column
+    for which it stands for nothing (left out, with "columns" given) is not
+    compared *)
+Theorem wait_matches_spec T all cols found expected :
+  wait_matches T all cols found expected = true <->
+  forall c, c ∈ cols -> forall v, expected_value T all expected c = Some v -> found !! c = v.
+Proof.
+  unfold wait_matches, expected_value. rewrite forallb_forall. split.
+  - intros H c Hc v Hv. specialize (H c). rewrite <- elem_of_list_In in H. specialize (H Hc).
+    destruct (expected !! c) as [x|].
+    + inversion Hv; subst. apply bool_decide_eq_true in H. exact H.
+    + destruct all; [|discriminate]. destruct (find_col T c) as [C|]; [|discriminate].
+      inversion Hv; subst. apply bool_decide_eq_true in H. exact H.
+  - intros H c Hc. apply elem_of_list_In in Hc. specialize (H c Hc).
+    destruct (expected !! c) as [x|].
+    + apply bool_decide_eq_true. apply H. reflexivity.
+    + destruct all; [|reflexivity]. destruct (find_col T c) as [C|]; [|reflexivity].
+      apply bool_decide_eq_true. apply H. reflexivity.
+Qed.
+
+(** so a compare-and-swap guard that leaves a column out is not vacuous: a row
+    whose value in that column is not the default does not match *)
+Corollary wait_all_columns_left_out_is_default T cols found expected c C v :
+  c ∈ cols -> expected !! c = None -> find_col T c = Some C ->
+  found !! c = Some v -> v <> default_value (c_ty C) ->
+  wait_matches T true cols found expected = false.
+Proof.
+  intros Hc He HC Hf Hv. apply not_true_is_false. intros H.
+  apply (proj1 (wait_matches_spec T true cols found expected)) with (c := c) (v := Some (default_value (c_ty C))) in H; [|exact Hc|].
+  - rewrite Hf in H. inversion H; subst. apply Hv. reflexivity.
+  - unfold expected_value. rewrite He, HC. reflexivity.
+Qed.
